@@ -309,6 +309,15 @@ var _ = kessoku.Inject[*Out]("InitOut", kessoku.Provide(NewOut))
 ''',
 }
 
+# an injector argument whose type comes from a package the user's file does not import, while the file imports another
+# package of the same name (repaired: the first spelling used the default package name, i.e. the OTHER package's type)
+UNIMPORTED_CLASH = {
+    "one/y/y.go": 'package y\n\ntype Thing struct{ S string }\n',
+    "two/y/y.go": 'package y\n\ntype Thing struct{ S string }\ntype Other struct{}\n\nfunc NewOther() *Other { return &Other{} }\n',
+    "a/a.go": 'package a\n\nimport (\n\toney "vscratch/fx_unimported_clash/one/y"\n\ttwoy "vscratch/fx_unimported_clash/two/y"\n)\n\ntype App struct{ S string }\n\nfunc NewApp(t oney.Thing, u *oney.Thing, o *twoy.Other) *App { return &App{S: t.S} }\n',
+    "k.go": 'package main\n\nimport (\n\t"github.com/mazrean/kessoku"\n\t"vscratch/fx_unimported_clash/a"\n\t"vscratch/fx_unimported_clash/two/y"\n)\n\nvar _ = kessoku.Inject[*a.App]("InitApp", kessoku.Provide(y.NewOther), kessoku.Provide(a.NewApp))\n',
+}
+
 
 def write_pkg(mod, name, files):
     d = os.path.join(mod, name)
@@ -358,6 +367,7 @@ def _stage(seed, tier, key="N-x"):
         pkgs.append(("ty%d" % i, {"k.go": wrap(body)}, ["k.go"], None, dict(kind="types", types=types)))
     for nm, body in REPAIRED.items():
         pkgs.append(("fx_" + nm, {"k.go": wrap(body)}, ["k.go"], None, dict(kind="reproducer of a repaired type-spelling defect")))
+    pkgs.append(("fx_unimported_clash", UNIMPORTED_CLASH, ["k.go"], None, dict(kind="reproducer of a repaired type-spelling defect (package name of an unimported package)")))
     for o in (0, 1):
         files, targets, meta = multi_pkg(o)
         pkgs.append(("mp%d" % o, files, targets, None, meta))
